@@ -87,7 +87,7 @@ func c20Precedence(p *Prog, r *Report) {
 		return
 	}
 	// (1) initialised from defaultConfig
-	defObj := fi.Pkg.Types.Scope().Lookup("defaultConfig")
+	defObj, _ := c20DefaultVar(p)
 	// the lineage of the returned value: variables whose whole value is copied into it (fromFile -> base through
 	// the parameter of a helper, conf := fromFile): the configuration travels by value through them
 	lineage := map[types.Object]bool{conf: true}
@@ -406,19 +406,7 @@ func c20Table(p *Prog, r *Report) {
 	leaves := c20Leaves(p, r)
 	r.Floor("C20.b", "config-leaf-settings", len(leaves), 7)
 	// defaults from the defaultConfig literal
-	var defLit *ast.CompositeLit
-	for _, file := range pkg.Syntax {
-		ast.Inspect(file, func(x ast.Node) bool {
-			if vs, ok := x.(*ast.ValueSpec); ok {
-				for i, nm := range vs.Names {
-					if nm.Name == "defaultConfig" && i < len(vs.Values) {
-						defLit, _ = vs.Values[i].(*ast.CompositeLit)
-					}
-				}
-			}
-			return true
-		})
-	}
+	_, defLit := c20DefaultVar(p)
 	defaults := map[string]ast.Expr{}
 	var collect func(cl *ast.CompositeLit, prefix string)
 	collect = func(cl *ast.CompositeLit, prefix string) {
@@ -436,6 +424,19 @@ func c20Table(p *Prog, r *Report) {
 					if _, isStruct := tv.Type.Underlying().(*types.Struct); isStruct {
 						collect(sub, prefix+id.Name+".")
 						continue
+					}
+				}
+			}
+			// a section given by a package variable of its own: Storage: baseStorage
+			if vid, ok := ast.Unparen(kv.Value).(*ast.Ident); ok {
+				if v, ok := info.Uses[vid].(*types.Var); ok && v.Pkg() != nil && v.Parent() == v.Pkg().Scope() {
+					if init, _ := p.pkgVarInit(v); init != nil {
+						if sub, ok := ast.Unparen(init).(*ast.CompositeLit); ok {
+							if _, isStruct := v.Type().Underlying().(*types.Struct); isStruct {
+								collect(sub, prefix+id.Name+".")
+								continue
+							}
+						}
 					}
 				}
 			}
@@ -1763,4 +1764,55 @@ func c20CustomUnmarshallers(p *Prog, r *Report, parse *FuncInfo) {
 			r.Undecided("C20.a", cons, p.pos(fi.Decl), "a custom UnmarshalYAML without a decode call the rule recognises")
 		}
 	}
+}
+
+// c20DefaultVar: the package-level variable of type config.Config that is initialised with a composite literal (the
+// defaults ParseConfig starts from), whatever it is called; when there are several, the one ParseConfig mentions.
+func c20DefaultVar(p *Prog) (types.Object, *ast.CompositeLit) {
+	pkg := p.Pkg("config")
+	if pkg == nil {
+		return nil, nil
+	}
+	var cands []types.Object
+	lits := map[types.Object]*ast.CompositeLit{}
+	sc := pkg.Types.Scope()
+	names := sc.Names()
+	sort.Strings(names)
+	for _, nm := range names {
+		v, ok := sc.Lookup(nm).(*types.Var)
+		if !ok {
+			continue
+		}
+		nt, ok := v.Type().(*types.Named)
+		if !ok || nt.Obj().Name() != "Config" || nt.Obj().Pkg() != pkg.Types {
+			continue
+		}
+		if init, _ := p.pkgVarInit(v); init != nil {
+			if cl, ok := ast.Unparen(init).(*ast.CompositeLit); ok {
+				cands = append(cands, v)
+				lits[v] = cl
+			}
+		}
+	}
+	if len(cands) == 0 {
+		return nil, nil
+	}
+	best := cands[0]
+	if fi := p.Func(kParseConfig); fi != nil && fi.Decl.Body != nil && len(cands) > 1 {
+		for _, c := range cands {
+			used := false
+			for _, body := range p.deepBodies(fi) {
+				ast.Inspect(body, func(x ast.Node) bool {
+					if id, ok := x.(*ast.Ident); ok && fi.Pkg.TypesInfo.Uses[id] == c {
+						used = true
+					}
+					return !used
+				})
+			}
+			if used {
+				best = c
+			}
+		}
+	}
+	return best, lits[best]
 }
